@@ -45,6 +45,8 @@ pub mod imbalance;
 mod nextafter;
 mod real;
 mod topology;
+#[cfg(coupe_verif)]
+pub mod verif_hooks;
 mod work_share;
 
 pub use crate::algorithms::*;
